@@ -1577,14 +1577,12 @@ impl Relation {
             }
         }
         // If this was the last relation in the entry, remove the entire entry
-        if let Some(mut parent) = self.0.parent().and_then(Entry::cast) {
+        let parent = self.0.parent().and_then(Entry::cast);
+        self.0.detach();
+        if let Some(mut parent) = parent {
             if parent.is_empty() {
                 parent.remove();
-            } else {
-                self.0.detach();
             }
-        } else {
-            self.0.detach();
         }
     }
 
